@@ -286,6 +286,11 @@ def cases(tier):
                 singles.append((bad, pos))
                 yield {"labels": [f"base={bname}", f"bad={bad}", f"at={pos_name(pos)}"],
                        "payload": {"base": bname, "faults": [[bad, list(pos)]], "order": None, "key": f"{bname}/{bad}@{pos[0]}"}}
+        if bname in ("A", "D"):
+            # history: the clean document was generated into the directory first, the faulted one overwrites it
+            for bad, pos in singles:
+                yield {"labels": [f"base={bname}", f"bad={bad}", f"at={pos_name(pos)}", "history=clean-then-faulted"],
+                       "payload": {"base": bname, "faults": [[bad, list(pos)]], "order": None, "history": True, "key": f"{bname}/{bad}@{pos[0]}/over-clean"}}
         if bname == "B":
             # order must not matter: every single fault under rotations / reversal of components.schemas (thorough: all of a 5-name subset)
             names = list(doc["components"]["schemas"])
@@ -304,6 +309,35 @@ def cases(tier):
                     continue
                 yield {"labels": [f"base={bname}", f"bad={b1}", f"at={pos_name(p1)}", f"bad2={b2}", f"at2={pos_name(p2)}"],
                        "payload": {"base": bname, "faults": [[b1, list(p1)], [b2, list(p2)]], "order": None, "key": f"{bname}/{b1}@{p1[0]}+{b2}@{p2[0]}"}}
+
+
+def _over_clean(p, d0, dprime, fresh, opts):
+    """The faulted document regenerated (overwrite) into the directory that holds the clean document's client: what is left is
+    exactly what a fresh generation of the faulted document gives (nothing of a removed piece survives, nothing else is lost)."""
+    import shutil
+    from checks.c01 import role
+    out = gen.fresh_dir("c08hist")
+    try:
+        first = gen.generate(copy.deepcopy(d0), out=out, keep_dir=True, **opts)
+        second = gen.generate(copy.deepcopy(dprime), out=out, overwrite=True, keep_dir=True, **opts)
+    finally:
+        shutil.rmtree(out, ignore_errors=True)
+    if fresh.crash or fresh.rejected or first.crash or first.rejected or second.crash or second.rejected:
+        return {"outcome": "n/a", "nontrivial": False}
+    viol = []
+    for f in sorted(set(fresh.tree) | set(second.tree)):
+        a, b = fresh.tree.get(f), second.tree.get(f)
+        if a == b:
+            continue
+        what = "survives from the clean generation" if a is None else ("is missing" if b is None else "differs")
+        viol.append({"oracle": "overwrite-differs-from-fresh", "site": role(f), "key": p["key"], "detail": f"{f} {what} after the faulted document overwrote the clean client"})
+    seen, uniq = set(), []
+    for v in viol:
+        k = (v["oracle"], v["site"])
+        if k not in seen:
+            seen.add(k)
+            uniq.append(v)
+    return {"violations": uniq, "outcome": "ok" if not uniq else "viol:overwrite", "nontrivial": True, "steps": 3}
 
 
 def is_index(f):
@@ -326,6 +360,8 @@ def run_case(p):
     key = p["key"]
     opts = OPTIONS.get(p["base"], {})
     r1 = gen.generate(copy.deepcopy(dprime), **opts)
+    if p.get("history"):
+        return _over_clean(p, d0, dprime, r1, opts)
     if r1.crash:
         # the bad piece takes EVERYTHING away (no output at all) although the document without its cone generates: that is damage to unrelated output
         cone_ = deps.cone(dprime, carriers)
